@@ -142,6 +142,24 @@ def run_case(spec, j):
                 dict(det, size=nb))
       except Exception as e:
         j.violated('C04.batch-size', dict(det, size=nb, raised=repr(e)[:200]))
+    if not prep:
+      # 64-bit integer coordinates of either sign up to the limits of the
+      # dtype (identifiers, nanosecond timestamps): the same numbers as
+      # floats give the same decisions - the differences of such integers do
+      # not fit the integer type
+      TI = rng.randint(-2**63, 2**63 - 1, size=(8, size, X.shape[1]),
+                       dtype=np.int64)
+      TI[0, 0], TI[0, 1] = np.iinfo(np.int64).min, np.iinfo(np.int64).max
+      try:
+        di, df = est.decision_function(TI), \
+            est.decision_function(TI.astype(float))
+        pi_, pf = est.predict(TI), est.predict(TI.astype(float))
+        j.check('C04.wide-integers',
+                np.array_equal(di, df, equal_nan=True) and
+                np.array_equal(pi_, pf, equal_nan=True),
+                dict(det, decision_int=di[:3], decision_float=df[:3]))
+      except Exception as e:
+        j.violated('C04.wide-integers', dict(det, raised=repr(e)[:200]))
     if size == 2:
       _pairs(j, est, T, arg, idx, ds, rng, det, key)
     elif size == 3:
